@@ -52,6 +52,7 @@ def run(repo, chk):
                       'closed — on every path and for every errno class of the send failure')
     chk.rule('C11.b', 'buffer discipline: append on write, popleft on writability, appendleft on put-back')
     chk.rule('C11.c', 'close is deferred while data is buffered and performed by the drain path')
+    chk.rule('C11.e', 'reading end-of-stream only requests a close (deferred while data is buffered); the read path closes at once only on errors')
     chk.rule('C11.d', 'write ensures writer interest; drained buffer removes it; _close clears buffer and flags')
     eps = endpoints(repo)
     if len(eps) < 3:
@@ -179,7 +180,18 @@ def endpoint(repo, chk, on_write):
                                                                                and '_closeq' in src(e2.src.ast))), extra_exit=lambda m: m.kind == 'for')
     chk.ob('c', ch.ref, 'with data still buffered close() records a deferred close', bool(rec) and bad is None, loc(ch, ch.node),
            path=pat.path_lines(bad) if bad else None, discr='deferred-recorded')
-    # --- d: _close clears buffer state
+    # --- e: the read path: end of stream is a close *request*
+    rd = cls.lookup('_read')
+    if rd is not None:
+        chk.touch(rd)
+        gr = rd.cfg()
+        for cn in [n for n in gr.nodes if n.kind == 'stmt' and any(r == 'self' for r, _c in pat.method_calls(n.ast, '_close'))]:
+            in_exc = any(k == 'except' for k, _a in cn.ctx)
+            q = pat.guarded_by(gr, cn, pat.test_edge(lambda tt, pol: pol == 'F' and (src(tt) in bufs or src(tt) in bufset)))
+            chk.ob('e', rd.ref, 'the read path tears the endpoint down at once only on an error; end of stream goes through close(), which waits for the buffer',
+                   in_exc or q is None, loc(rd, cn.ast), discr='read-eof-defers')
+        reqs = [n for n in gr.nodes if n.kind == 'stmt' and any(r == 'self' for r, _c in pat.method_calls(n.ast, 'close'))]
+        chk.ob('e', rd.ref, 'end of stream requests a close', bool(reqs), loc(rd, rd.node), discr='read-eof-closes')
     cl = cls.lookup('_close')
     need(cl, f'C11.d: {cls.ref} has no _close')
     chk.touch(cl)
